@@ -36,6 +36,41 @@ def etype_of(kind):
     return {"udp": 0x0800, "arp": 0x0806, "lldp": LLDP_TYPE, "raw": 0x88b5, "raw6": 0x0600}[kind]
 
 
+IP_A, IP_B = 0x0a000001, 0x0a000002      # 10.0.0.1 -> 10.0.0.2 unless the frame says otherwise
+
+
+def fspec(op):
+    """What a frame description means, written independently of the code under test:
+    (outer ethertype — what `ethernet.type` is —, the header fields an exact OpenFlow 1.0 match of the frame has, is it IPv4 TCP/UDP/ICMP).
+    Fields: [dl_vlan, dl_vlan_pcp, dl_type, nw_tos, nw_proto, nw_src, nw_dst, tp_src, tp_dst], None = the field does not apply.
+    `x` refines a kind: tos, proto (kind ipraw), dport, code, op (ARP opcode), sip, dip, vlan [id, pcp]."""
+    kind, key, x = op["kind"], op["key"], op.get("x") or {}
+    inner = {"udp": 0x0800, "tcp": 0x0800, "icmp": 0x0800, "ipraw": 0x0800, "arp": 0x0806, "lldp": LLDP_TYPE, "raw": 0x88b5, "raw6": 0x0600}[kind]
+    vl = x.get("vlan")
+    f = [vl[0] if vl else 0xffff, vl[1] if vl else 0, inner, None, None, None, None, None, None]
+    if inner == 0x0800:
+        proto = {"udp": 17, "tcp": 6, "icmp": 1}.get(kind, x.get("proto", 253))
+        f[3:7] = [x.get("tos", 0) & 0xfc, proto, x.get("sip", IP_A), x.get("dip", IP_B)]
+        if kind in ("udp", "tcp"): f[7:9] = [key, x.get("dport", 9)]
+        elif kind == "icmp": f[7:9] = [key & 0xff, x.get("code", 0)]
+    elif inner == 0x0806:
+        f[4:7] = [x.get("op", 1) & 0xff, x.get("sip", IP_A), 0x0a000000 | (key & 0xffff)]
+    return (0x8100 if vl else inner), f, kind in ("udp", "tcp", "icmp")
+
+
+def enc_fields(f):
+    """one number for the nine fields (injective: each field < 2^32)"""
+    k = 0
+    for i, v in enumerate(f):
+        k |= (0 if v is None else v + 1) << (33 * i)
+    return k
+
+
+def hdr_of(op):
+    outer, f, l4 = fspec(op)
+    return (op["src"], op["dst"], outer, enc_fields(f))
+
+
 class Pipe:
     def __init__(self): self.to_switch = b""; self.to_ctl = b""
 
@@ -145,6 +180,18 @@ class C11(Check):
         core.openflow.addListenerByName("PacketIn", lambda e: (self.pins.append(e.dpid), self.pin_data.append(bytes(e.data))))
         self._dpid = 0
         self._fcache = {}
+        # exceptions that the switch's / controller's read paths and event dispatch contain are logged with a traceback (log.exception): collect
+        # those records (and nothing below ERROR); a contained exception while a frame is processed is an observable of that arrival
+        import logging
+        chk = self
+        class Collect(logging.Handler):
+            def emit(self, record):
+                if record.exc_info and record.exc_info[0] is not None:
+                    chk.errs.append("%s:%s" % (record.name.split(".")[0] if record.name[:2] != "00" else "switch", record.exc_info[0].__name__))
+        self.errs = []
+        if not any(isinstance(h, Collect) or type(h).__name__ == "Collect" for h in logging.getLogger().handlers):
+            logging.getLogger().addHandler(Collect(level=logging.ERROR))
+        logging.disable(logging.WARNING)
         self.relearn = self.dropinport = self.exactsig = False
         self.variant_notes = []
         self.probe_variants()
@@ -231,27 +278,42 @@ class C11(Check):
                 "flow_table_variant": {"prerequisite_less_wildcards_rank_exact": self.exactsig},
                 "variant_detection": "probed on the running system; source shapes as cross-check", "variant_notes": self.variant_notes}
 
-    def frame(self, src, dst, kind, key, pay):
-        """real frame bytes; `key` goes where ofp_match.from_packet looks (UDP source port / ARP target address), `pay` where it does not"""
-        k = (src, dst, kind, key, pay)
+    def frame(self, op):
+        """real frame bytes for a frame description, built with the packet library; `pay` only changes bytes no match looks at"""
+        x = op.get("x") or {}
+        k = (op["src"], op["dst"], op["kind"], op["key"], op["pay"], common.canon(x))
         fb = self._fcache.get(k)
         if fb is not None: return fb
+        src, dst, kind, key, pay = op["src"], op["dst"], op["kind"], op["key"], op["pay"]
         ethernet, ipv4, udp, arp, EthAddr, IPAddr = self.pk
-        e = ethernet(src=EthAddr(mac_bytes(src)), dst=EthAddr(mac_bytes(dst)), type=etype_of(kind))
-        if kind == "udp":
-            e.payload = ipv4(srcip=IPAddr("10.0.0.1"), dstip=IPAddr("10.0.0.2"), protocol=17)
-            e.payload.payload = udp(srcport=key, dstport=9)
-            # pay >= 100: a frame longer than miss_send_len (128), so the packet-in is truncated and only the buffer has it all
-            # pay 200..: frame lengths around miss_send_len exactly (pay 202 -> 128 bytes, 203 -> 129)
-            if pay < 100: body = b"p" + bytes([pay & 0xff]) * (1 + pay % 5)
-            elif pay < 200: body = bytes([pay & 0xff]) * 300
-            else: body = bytes([pay & 0xff]) * (pay - 200 + 84)
-            e.payload.payload.payload = body
-        elif kind == "arp":
-            e.payload = arp(opcode=1, hwsrc=EthAddr(mac_bytes(src)), hwdst=EthAddr(b"\0" * 5 + bytes([pay & 0xff])),
-                            protosrc=IPAddr("10.0.0.1"), protodst=IPAddr("10.0.%d.%d" % (key >> 8, key & 0xff)))
+        from pox.lib.packet import tcp, icmp, vlan
+        outer, f, _ = fspec(op)
+        inner_type = f[2]
+        if pay < 100: body = b"p" + bytes([pay & 0xff]) * (1 + pay % 5)
+        elif pay < 200: body = bytes([pay & 0xff]) * 300            # longer than miss_send_len (128): the packet-in is truncated, only the buffer has it all
+        else: body = bytes([pay & 0xff]) * (pay - 200 + 84)         # UDP: pay 202 -> a frame of exactly 128 bytes, 203 -> 129
+        if inner_type == 0x0800:
+            ip = ipv4(srcip=IPAddr(x.get("sip", IP_A)), dstip=IPAddr(x.get("dip", IP_B)), protocol=f[4], tos=x.get("tos", 0))
+            if kind == "udp":
+                ip.payload = udp(srcport=key, dstport=x.get("dport", 9)); ip.payload.payload = body
+            elif kind == "tcp":
+                t = tcp(srcport=key, dstport=x.get("dport", 9)); t.off = 5; t.payload = body; ip.payload = t
+            elif kind == "icmp":
+                ic = icmp(type=key & 0xff, code=x.get("code", 0)); ic.payload = body; ip.payload = ic
+            else:
+                ip.payload = body
+            l3 = ip
+        elif inner_type == 0x0806:
+            l3 = arp(opcode=x.get("op", 1), hwsrc=EthAddr(mac_bytes(src)), hwdst=EthAddr(b"\0" * 5 + bytes([pay & 0xff])),
+                     protosrc=IPAddr(x.get("sip", IP_A)), protodst=IPAddr(0x0a000000 | (key & 0xffff)))
         else:
-            e.payload = bytes([pay & 0xff]) * (2 + pay % 7)
+            l3 = bytes([pay & 0xff]) * (2 + pay % 7)
+        e = ethernet(src=EthAddr(mac_bytes(src)), dst=EthAddr(mac_bytes(dst)))
+        if x.get("vlan"):
+            v = vlan(id=x["vlan"][0], pcp=x["vlan"][1], eth_type=inner_type); v.payload = l3
+            e.type = 0x8100; e.payload = v
+        else:
+            e.type = inner_type; e.payload = l3
         fb = e.pack()
         self._fcache[k] = fb
         return fb
@@ -280,7 +342,7 @@ class C11(Check):
             moved, n = True, 0
             while moved:
                 moved = False; n += 1
-                if n > 200: raise RuntimeError("control channel does not quiesce")
+                if n > 40: raise RuntimeError("control channel does not quiesce")
                 if self.pipe.to_switch:
                     d = self.pipe.to_switch; self.pipe.to_switch = b""; self.w._push_receive_data(d); moved = True
                 if self.w.send_buf:
@@ -293,10 +355,11 @@ class C11(Check):
         for e in node.sw.table.entries:
             m = e.match
             outs = [a.port for a in e.actions]
-            key = 0
-            if m.dl_type == 0x0800 and m.tp_src is not None: key = m.tp_src
-            elif m.dl_type == 0x0806 and m.nw_dst is not None: key = m.nw_dst.toUnsigned() & 0xffff
-            rows.append([node.logical(m.in_port), int.from_bytes(m.dl_src.raw, "big"), int.from_bytes(m.dl_dst.raw, "big"), m.dl_type, key,
+            ipn = lambda v: None if v is None else v.toUnsigned()
+            f = [m.dl_vlan, m.dl_vlan_pcp, m.dl_type, m.nw_tos, m.nw_proto, ipn(m.nw_src), ipn(m.nw_dst), m.tp_src, m.tp_dst]
+            tagged = m.dl_vlan is not None and m.dl_vlan != 0xffff
+            rows.append([node.logical(m.in_port), int.from_bytes(m.dl_src.raw, "big"), int.from_bytes(m.dl_dst.raw, "big"),
+                         0x8100 if tagged else m.dl_type, enc_fields(f),
                          node.logical(outs[0]) if len(outs) == 1 else (0 if not outs else -1),
                          e.idle_timeout, e.hard_timeout, int(round(e.created * 1000)), int(round(e.last_touched * 1000)),
                          1 if e.effective_priority > 0xffff else 0])
@@ -336,16 +399,16 @@ class C11(Check):
                     steps.append({"k": "adv"})
                 elif op["op"] == "sweep":
                     n = nodes[op["sw"]]
-                    n.out.clear(); del self.pins[:]; del self.pin_data[:]
+                    n.out.clear(); del self.pins[:]; del self.pin_data[:]; del self.errs[:]
                     n.sw.table.remove_expired_entries(clock.now); n.pump()
-                    steps.append({"k": "sweep", "flows": self.table_summary(n), "noise": len(n.out) + len(self.pins)})
+                    steps.append({"k": "sweep", "flows": self.table_summary(n), "noise": len(n.out) + len(self.pins) + len(self.errs)})
                 elif op["op"] == "burst":
                     # several frames reach ONE switch before the control channel moves: the packet-ins share one read at the controller and the
                     # answers one read at the switch (HARDENING 5).  Frames of a burst have pairwise different bytes, so deliveries and
                     # packet-ins are attributed by content.  No links in burst cases.
                     n = nodes[op["sw"]]
-                    n.out.clear(); del self.pins[:]; del self.pin_data[:]
-                    fbs = [self.frame(f["src"], f["dst"], f["kind"], f["key"], f["pay"]) for f in op["frames"]]
+                    n.out.clear(); del self.pins[:]; del self.pin_data[:]; del self.errs[:]
+                    fbs = [self.frame(f) for f in op["frames"]]
                     if len(set(fbs)) != len(fbs): raise RuntimeError("burst frames must differ")
                     excs = [deliver(n, fb, f["port"]) for f, fb in zip(op["frames"], fbs)]
                     exc2 = settle(n)
@@ -355,24 +418,26 @@ class C11(Check):
                         a = {"sw": op["sw"], "port": f["port"], "pin": sum(1 for d in self.pin_data if d == fb), "pin_ok": 1 if all(d == n.dpid for d in self.pins) else 0,
                              "out": [[p, 1] for p, b in n.out if b == fb], "flows": flows, "bufs": bufs}
                         if ex or exc2: a["exc"] = ex or exc2
+                        if self.errs: a["errs"] = sorted(set(self.errs))
                         arrivals.append(a)
                     stray = [p for p, b in n.out if b not in fbs]
                     steps.append({"k": "burst", "arr": arrivals, "stray": len(stray) + sum(1 for d in self.pin_data if d not in fbs)})
                 else:
-                    fb = self.frame(op["src"], op["dst"], op["kind"], op["key"], op["pay"])
+                    fb = self.frame(op)
                     queue = [(op["sw"], op["port"])]
                     arrivals = []
                     while queue:
                         if len(arrivals) > 64: raise RuntimeError("frame circulates")
                         si, port = queue.pop(0)
                         n = nodes[si]
-                        n.out.clear(); del self.pins[:]; del self.pin_data[:]
+                        n.out.clear(); del self.pins[:]; del self.pin_data[:]; del self.errs[:]
                         ex1 = deliver(n, fb, port); ex2 = settle(n); ex = ex1 or ex2
                         outs = [[p, 1 if b == fb else 0] for p, b in n.out]
                         arrivals.append({"sw": si, "port": port, "pin": len(self.pins), "pin_ok": 1 if all(d == n.dpid for d in self.pins) else 0,
                                          "out": outs, "flows": self.table_summary(n),
                                          "bufs": [0 if b is None else 1 for b in n.sw._packet_buffer]})
                         if ex: arrivals[-1]["exc"] = ex
+                        if self.errs: arrivals[-1]["errs"] = sorted(set(self.errs))
                         for p, _ in n.out:
                             if (si, p) in link: queue.append(link[(si, p)])
                     steps.append({"k": "rx", "arr": arrivals})
@@ -386,8 +451,10 @@ class C11(Check):
     A, B, Cc = 0x0a, 0x0b, 0x0c
 
     @staticmethod
-    def rx(port, src, dst, kind="udp", key=1, pay=0, sw=0):
-        return {"op": "rx", "sw": sw, "port": port, "src": src, "dst": dst, "kind": kind, "key": key, "pay": pay}
+    def rx(port, src, dst, kind="udp", key=1, pay=0, sw=0, x=None):
+        d = {"op": "rx", "sw": sw, "port": port, "src": src, "dst": dst, "kind": kind, "key": key, "pay": pay}
+        if x: d["x"] = x
+        return d
 
     def alphabet(self, tier):
         rx, A, B = self.rx, self.A, self.B
@@ -471,6 +538,33 @@ class C11(Check):
             d = one([rx(3, B, A, key=0), rx(1, A, B, key=0), rx(1, A, B, key=0), rx(2, B, BCAST), rx(1, A, B, key=257), rx(1, A, B, key=0),
                      rx(1, A, B, kind="arp", key=0), rx(3, B, BCAST), rx(1, A, B, kind="arp", key=256)], bufs=1)
             d["switches"][0]["base"] = base; cases.append(d)
+        # (3,6) the frames themselves: every value of every header field that goes into the installed match, one value per case —
+        #       B is known on port 2; the frame A -> B with field value v must come out of port 2 exactly, leave no buffer behind, and its
+        #       repetition must be forwarded by the flow just installed (the model says so; the oracle judges the deliveries)
+        def probe(kind, key=1, x=None, bufs=1):
+            fr = rx(1, A, B, kind=kind, key=key, x=x)
+            return one([rx(2, B, BCAST), fr, dict(fr, pay=1)], bufs=bufs)
+        for tos in range(256):                                                  # all 64 DSCP x 4 ECN
+            cases.append(probe("udp", x={"tos": tos}, bufs=tos % 2))
+        for proto in range(256):                                                # every IP protocol number
+            kind = {1: "icmp", 6: "tcp", 17: "udp"}.get(proto, "ipraw")
+            cases.append(probe(kind, key=8 if proto == 1 else 1, x={"proto": proto}, bufs=proto % 2))
+        for kind in ("udp", "tcp"):
+            for sp in (0, 1, 255, 256, 32768, 65535):
+                for dp in (0, 1, 65535):
+                    cases.append(probe(kind, key=sp, x={"dport": dp}))
+        for ty in (0, 3, 8, 255):
+            for code in (0, 1, 255):
+                cases.append(probe("icmp", key=ty, x={"code": code}))
+        for vid in (0, 1, 255, 256, 4094, 4095):
+            for pcp in (0, 1, 7):
+                for kind in ("udp", "arp", "raw", "lldp"):
+                    cases.append(probe(kind, key=0 if kind in ("raw", "lldp") else 1, x={"vlan": [vid, pcp]}, bufs=(vid + pcp) % 2))
+        for opc in (0, 1, 2, 255, 256, 257, 65535):
+            cases.append(probe("arp", x={"op": opc}))
+        for sip, dip in ((0, 0xffffffff), (0xffffffff, 0), (0x7f000001, 0xe0000001), (0x0a000001, 0x0a000001)):
+            cases.append(probe("udp", x={"sip": sip, "dip": dip})); cases.append(probe("arp", x={"sip": sip}))
+        cases.append(probe("tcp", x={"tos": 0x2c, "vlan": [7, 5], "dport": 0}))
         # (5) bursts: several frames reach the switch before the control channel moves — several packet-ins in one read at the controller, several
         #     answers in one read at the switch, more misses than buffers; judged by the oracle (ideal bridge), frame by frame
         f = lambda port, src, dst, pay, kind="udp", key=1: {"port": port, "src": src, "dst": dst, "kind": kind, "key": key, "pay": pay}
@@ -583,7 +677,18 @@ class C11(Check):
                         frames.append({"port": where[s2], "src": s2, "dst": d2, "kind": rng.choice(["udp", "udp", "arp"]), "key": rng.randint(1, nkeys), "pay": 10 + len(ops) % 60 + k * 0 + k})
                     if len({(f["src"], f["dst"], f["kind"], f["key"], f["pay"]) for f in frames}) == len(frames):
                         ops.append({"op": "burst", "sw": 0, "frames": frames}); continue
-                ops.append(self.rx(port, src, dst, kind, key, pay, sw))
+                x = None
+                if rare and rng.random() < 0.6:
+                    kind = rng.choice(["udp", "udp", "tcp", "icmp", "ipraw", "arp", "raw"])
+                    key = rng.choice([0, 1, 2, 8, 255, 256, 65535]) if kind in ("udp", "tcp", "icmp", "arp") else 0
+                    x = {}
+                    if kind in ("udp", "tcp", "icmp", "ipraw") and rng.random() < 0.7: x["tos"] = rng.randrange(256)
+                    if kind == "ipraw": x["proto"] = rng.choice([0, 2, 4, 41, 47, 50, 89, 132, 253, 255])
+                    if kind in ("udp", "tcp") and rng.random() < 0.3: x["dport"] = rng.choice([0, 53, 65535])
+                    if kind == "icmp" and rng.random() < 0.3: x["code"] = rng.choice([0, 1, 255])
+                    if kind == "arp" and rng.random() < 0.3: x["op"] = rng.choice([0, 2, 256, 257])
+                    if rng.random() < 0.25: x["vlan"] = [rng.choice([0, 1, 100, 4095]), rng.choice([0, 3, 7])]
+                ops.append(self.rx(port, src, dst, kind, key, pay, sw, x))
         return {"transparent": rng.random() < 0.25, "pd": rng.random() < 0.7, "switches": sws, "links": links, "ops": ops}
 
     def generate(self, rng, tier):
@@ -603,8 +708,9 @@ class C11(Check):
         ops = []
         for op in case["ops"]:
             if op["op"] == "rx":
-                ops.append({"op": "rx", "sw": op["sw"], "port": op["port"], "src": op["src"], "dst": op["dst"], "etype": etype_of(op["kind"]),
-                            "key": op["key"], "l4": 1 if op["kind"] == "udp" else 0, "pay": op["pay"]})
+                outer, f, l4 = fspec(op)
+                ops.append({"op": "rx", "sw": op["sw"], "port": op["port"], "src": op["src"], "dst": op["dst"], "etype": outer,
+                            "key": enc_fields(f), "l4": 1 if l4 else 0, "pay": op["pay"]})
             else:
                 ops.append(op)
         return {"transparent": bool(case["transparent"]), "relearn": self.relearn, "dropinport": self.dropinport, "exactsig": self.exactsig, "t0": T0_MS, "switches": [{"ports": w["ports"], "bufs": w["bufs"]} for w in case["switches"]], "links": case.get("links", []), "ops": ops}
@@ -620,6 +726,7 @@ class C11(Check):
                 for a in st["arr"]:
                     d = {"sw": a["sw"], "port": a["port"], "pin": a["pin"], "stuck": 0, "out": a["out"], "flows": a["flows"], "bufs": a["bufs"]}
                     if a.get("exc"): d["exc"] = a["exc"]             # an exception escaping the real loop has no model counterpart
+                    if a.get("errs"): d["errs"] = a["errs"]
                     arr.append(d)
                 steps.append({"k": "rx", "arr": arr})
             elif st["k"] == "sweep":
@@ -659,8 +766,9 @@ class C11(Check):
                 groups = [(f, [a]) for f, a in zip(op["frames"], st["arr"])]
             else: continue
             for fop, arrs in groups:
-                src, dst, et = fop["src"], fop["dst"], etype_of(fop["kind"])
-                hdr = (src, dst, fop["kind"], fop["key"])
+                src, dst = fop["src"], fop["dst"]
+                hdr = hdr_of(fop)
+                et = hdr[2]                                        # what the controller sees as the frame's type (0x8100 for a tagged frame)
                 hops = [(a["sw"], a["port"]) for a in arrs]
                 if len(set(hops)) != len(hops):                    # the harness builds loop-free topologies only
                     return "one frame reached the same switch port twice: %s" % sorted(h for h in set(hops) if hops.count(h) > 1), "net-dup"
@@ -706,6 +814,9 @@ class C11(Check):
                         elif not cached and ports != want:
                             return ("forwarded by a cached flow that its idle 10 s / hard 30 s timeouts and a sweep should have removed, not to the most "
                                     "recent port (%s): %s, seen %s" % (where, ports, known)), "fresh:cached-flow-outlived-timeout"
+                    if a.get("errs"):
+                        return ("an exception was contained (logged, message or event dropped) while this frame was processed: a controller message or "
+                                "a packet-in was not acted on (%s): %s" % (where, a["errs"])), "swallowed-exception:" + a["errs"][0]
                     seen[si].setdefault(src, [])
                     seen[si][src] = [port] + seen[si][src]
                     via_flow[si][src] = (a["pin"] == 0)
